@@ -700,8 +700,8 @@ class MapGen:
             elif nk == "skip":
                 tag = "-"
             sp, dp = place(spaths, o.get("deep", 0.5)), place(dpaths, o.get("deep", 0.5))
-            if tag is not None and sp != ():
-                sp = ()          # tags are read at the top level only
+            if tag is not None and sp != () and r.random() < 0.5:
+                sp = ()          # tags of promoted fields are read too; keep most of them at the top level
             if tag == "-" and r.random() < 0.5:
                 sfields[sp].append(F(sn, a))
                 dfields[()].append(F(dn, b, "-"))      # `map:"-"` on the destination side
@@ -746,14 +746,22 @@ class MapGen:
                 else:
                     sfields[()] += [F(a, t), F(b, t)]
                     dfields[()].append(F(b, t))
-        # `map:"-"` (or a name tag) on a PROMOTED field: the generator does not read tags below the top level
+        # `map:"-"` on a PROMOTED field of either side (name tags on promoted source fields come from the name kinds above)
         if r.random() < o.get("nested_tag", 0.0):
-            cands = [f for p in spaths if p for f in sfields[p] if f["tag"] is None]
-            if cands:
-                self.pick(cands)["tag"] = "-"
+            for fields, paths in r.sample([(sfields, spaths), (dfields, dpaths)], r.choice([1, 1, 2])):
+                cands = [f for p in paths if p for f in fields[p] if f["tag"] is None]
+                if cands:
+                    self.pick(cands)["tag"] = "-"
         # a top-level `map:"-"` field with a promoted namesake
         if r.random() < o.get("skip_shadow", 0.0):
             for fields, paths in ((sfields, spaths), (dfields, dpaths)):
+                # the PROMOTED variant (a finding region): a depth-1 `map:"-"` field with a depth-2 namesake
+                deep = [(p, f) for p in paths if len(p) == 2 for f in fields[p] if f["name"][:1].isupper() and f["tag"] is None]
+                if deep and r.random() < 0.5:
+                    p, f = self.pick(deep)
+                    if all(g["name"] != f["name"] for g in fields[p[:1]] + fields[()]):
+                        fields[p[:1]].append(F(f["name"], f["type"], "-"))
+                        break
                 cands = [f for p in paths if p for f in fields[p] if f["name"][:1].isupper()]
                 if cands and all(g["name"] != cands[0]["name"] for g in fields[()]):
                     fields[()].append(F(cands[0]["name"], cands[0]["type"], "-"))
@@ -934,6 +942,25 @@ def to_new(rng, spec, side, keep_exported=0.2, getonly=0.15, setonly=0.15, newma
     return spec
 
 
+def add_hooks(rng, spec, write=0.35, own=2):
+    """manual hooks on a pair whose sides are already rendered (accessor mode included): the read hook (readX / fromX) assigns
+    fields of the SOURCE receiver directly - unexported ones too, it lives in the source package, and for a get-only field there
+    is no other way; the write hook (toX / writeX) assigns exported fields of the destination through its pointer parameter.
+    Bodies are self-assignments: the analysis sees an assignment, the value stays what the generated code left there - so a
+    hook-owned field shows whether anybody else wrote it (expectation: nobody, it stays zero)"""
+    src, dest = spec["src"], spec["dest"]
+    sn = [m["name"] for m in src["members"] if m["k"] == "f" and m.get("tag") != "-" and (src["kind"] == "new" or m["name"][:1].isupper())]
+    dn = [m["name"] for m in dest["members"] if m["k"] == "f" and m.get("tag") != "-" and m["name"][:1].isupper()]
+    man = {"write": rng.choice(["to", "write"]) if rng.random() < write else None, "read": rng.choice(["from", "read"]),
+           "readptr": rng.random() < 0.5, "recvval": False}
+    if sn:
+        man["rfields"] = rng.sample(sn, rng.randint(1, min(own, len(sn))))
+    if man["write"] and dn:
+        man["wfields"] = rng.sample(dn, rng.randint(1, min(own, len(dn))))
+    spec["manual"] = man
+    return spec
+
+
 def mk_spec(src_members, dest_members, way="both", i=False, alias="", sname="S", dname=None, funcs=None, mapper_ptr=False,
             src_kind="plain", dest_kind="plain"):
     """hand-written pair (witnesses of the finding regions, replayed on every run)"""
@@ -962,27 +989,33 @@ def shadow_chain(side, order, ptr=(True, True), other_flat=True):
 WITNESSES = {
     "C05": lambda: [
         ("F_multiMatch", mk_spec([F("ID", INT)], [F("ID", INT), F("Id", INT)])),
-        ("F_namedScalarSub", mk_spec([F("K", SRC_KIND)], [F("K", DEST_KIND)])),
-        ("F_tagKey", mk_spec([F("User_name", STR, "Title")], [F("Title", STR)])),
-        ("F_nestedTag", mk_spec([E(ST("Base", [F("Name", STR, "-")]))], [F("Name", STR)])),
-        ("F_skipShadow", mk_spec([F("Name", INT, "-"), E(ST("Base", [F("Name", INT)]))], [F("Name", INT)])),
-        ("F_ptrConv", mk_spec([F("P", P(INT))], [F("P", P(DEST_KIND))])),
-        ("F_convSrcNamed", mk_spec([F("L", SRC_LABEL)], [F("L", STR)])),
+        ("F_skipShadow", mk_spec([E(ST("Base", [F("Name", INT, "-"), E(ST("Inner", [F("Name", INT)]))]))], [F("Name", INT)])),
+        # witnesses of repaired regions, kept as regression inputs (region WF now)
+        ("fixed-namedScalarSub", mk_spec([F("K", SRC_KIND)], [F("K", DEST_KIND)])),
+        ("fixed-tagKey", mk_spec([F("User_name", STR, "Title")], [F("Title", STR)])),
+        ("fixed-tagKey-joined", mk_spec([F("A", INT, "X"), F("B", INT, "X", join=True)], [F("B", INT)])),
+        ("fixed-nestedTag", mk_spec([E(ST("Base", [F("Name", STR, "-")]))], [F("Name", STR)])),
+        ("fixed-nestedTag-name", mk_spec([E(ST("Base", [F("Caption", STR, "Title")]))], [F("Title", STR)])),
+        ("fixed-skipShadow", mk_spec([F("Name", INT, "-"), E(ST("Base", [F("Name", INT)]))], [F("Name", INT)])),
+        ("fixed-ptrConv", mk_spec([F("P", P(INT))], [F("P", P(DEST_KIND))])),
+        ("fixed-convSrcNamed", mk_spec([F("L", SRC_LABEL)], [F("L", STR)])),
     ],
     "C09": lambda: [
         ("F_ptrMapper", mk_spec([F("Count", INT)], [F("Count", STR)], funcs=[(INT, STR), (STR, INT)], mapper_ptr=True)),
-        ("F_selfEmbed", mk_spec([BACK("Node"), F("Val", INT)], [F("Val", INT)], sname="Node")),
+        ("fixed-selfEmbed", mk_spec([BACK("Node"), F("Val", INT)], [F("Val", INT)], sname="Node")),
     ],
     "C15": lambda: [
-        ("F_setOnlyRead", mk_spec([F("Wo", INT)], [F("wo", INT, set=True)], dest_kind="new")),
-        ("F_ctorPriority", mk_spec([F("Wide", INT)], [F("wide", I64)], way="to", funcs=[(INT, I64)], dest_kind="new")),
         ("F_skipTagNew", mk_spec([F("Age", INT)], [F("age", INT, "-")], way="to", dest_kind="new")),
         ("F_ctorNoSub", mk_spec([F("Addr", SRC_SUB)], [F("addr", DEST_SUB, get=True)], way="to", dest_kind="new")),
-        ("F_ctorTag", mk_spec([F("caption", STR, "Title", get=True)], [F("Title", STR)], way="from", src_kind="new")),
-        ("F_ptrEmbedSetter", mk_spec([F("Name", STR)], [E(ST("Core", [F("name", STR)], "new"), True)], way="to", dest_kind="new")),
-        ("F_ctorPtrEmbed", mk_spec([F("Name", STR), F("ID", INT)], [E(ST("Core", [F("name", STR, get=True)], "new"), True), F("id", INT)],
-                                   way="to", dest_kind="new")),
-        ("F_ctorZeroAny", mk_spec([F("ID", INT)], [F("id", INT), F("extra", ANY)], way="to", dest_kind="new")),
+        ("F_ptrEmbedSetter", mk_spec([F("Name", STR)], [E(ST("Core", [F("name", STR)], "new"), True), F("other", INT, new=True)],
+                                     way="to", dest_kind="new")),
+        # witnesses of repaired regions, kept as regression inputs (region WF now)
+        ("fixed-setOnlyRead", mk_spec([F("Wo", INT)], [F("wo", INT, set=True)], dest_kind="new")),
+        ("fixed-ctorPriority", mk_spec([F("Wide", INT)], [F("wide", I64)], way="to", funcs=[(INT, I64)], dest_kind="new")),
+        ("fixed-ctorTag", mk_spec([F("caption", STR, "Title", get=True)], [F("Title", STR)], way="from", src_kind="new")),
+        ("fixed-ctorPtrEmbed", mk_spec([F("Name", STR), F("ID", INT)], [E(ST("Core", [F("name", STR, get=True)], "new"), True), F("id", INT)],
+                                       way="to", dest_kind="new")),
+        ("fixed-ctorZeroAny", mk_spec([F("ID", INT)], [F("id", INT), F("extra", ANY)], way="to", dest_kind="new")),
     ],
 }
 
@@ -1239,9 +1272,9 @@ def add_companion(rng, spec, file_mode=0.0, disabled=0.5):
         if m["k"] != "f" or m.get("tag") is not None or m["name"] not in dtop:
             continue
         a, b = m["type"], dtop[m["name"]]["type"]
-        if ({a, b} & bad or elem_struct(a) or elem_struct(b) or mentions_pkg(a, "src") or mentions_pkg(b, "src") or
-                a[0] == "p" or b[0] == "p" or dtop[m["name"]].get("tag") is not None or (a, b) in [(x, y) for _, x, y in pairs]):
-            continue          # the companion's own mapping must be free of the known compile defects (src-named / pointer conversions)
+        if ({a, b} & bad or elem_struct(a) or elem_struct(b) or dtop[m["name"]].get("tag") is not None or
+                (a, b) in [(x, y) for _, x, y in pairs]):
+            continue
         pairs.append((m["name"], a, b))
     if not pairs:
         return spec
